@@ -323,6 +323,65 @@ def nan_cases(c, S, info, R, rb):
                     {"cfg": cfg, "edit": "copy.particles[1].vz = -0.0"})
 
 
+def special_value_sweep(c, S, info, R, rb):
+    """every persisted double member of reb_simulation / ri_* set to NaN, -NaN, +inf, -inf, a denormal, -0.0 in turn:
+    the simulation must equal itself, its copy and its unpickled snapshot (the C comparison is bitwise for these
+    members), a copy that differs only by the sign of zero / the NaN payload must be reported, and Python ==, !=
+    (both orders) must agree with reb_simulation_diff in every case"""
+    per = persisted_paths(info)
+    wall = {r["path"] for r in info["rows"] if r["name"].startswith(info["wallprefix"])}
+    cfg = {"integrator": "whfast", "o": {"safe_mode": 0}, "system": "planets", "save_after": 2}
+    specials = [("nan", struct.pack("<Q", 0x7ff8000000000000)), ("-nan", struct.pack("<Q", 0xfff8000000000001)),
+                ("inf", struct.pack("<d", float("inf"))), ("-inf", struct.pack("<d", float("-inf"))),
+                ("denormal", struct.pack("<Q", 1)), ("-0.0", struct.pack("<d", -0.0)), ("0.0", struct.pack("<d", 0.0))]
+    twins = {"nan": "-nan", "-0.0": "0.0", "0.0": "-0.0", "inf": "-inf"}
+    sv = dict(specials)
+    res = {"members": 0, "cases": 0}
+
+    def task(m):
+        import pickle as _p, warnings
+        warnings.simplefilter("ignore")
+        out = []
+        for tag, val in specials:
+            a = build_sim(rb, cfg); advance(a, 2); R.save(a)
+            ctypes.memmove(ctypes.addressof(a) + m["off"], val, 8)
+            cp, _ = R.copy(a)
+
+            def agree(x, y, want, what):
+                ne = R.diff(x, y)
+                if ne != want:
+                    out.append("%s=%s: reb_simulation_diff says %d for %s (expected %d)" % (m["path"], tag, ne, what, want))
+                if bool(x == y) != (ne == 0) or bool(x != y) != (ne != 0) or bool(y == x) != (ne == 0):
+                    out.append("%s=%s: Python ==/!= (%s, %s, %s) disagree with reb_simulation_diff=%d for %s" % (
+                        m["path"], tag, bool(x == y), bool(x != y), bool(y == x), ne, what))
+            if ctypes.string_at(ctypes.addressof(cp) + m["off"], 8) != val:
+                out.append("%s=%s: the copy holds different bytes" % (m["path"], tag))
+            agree(a, a, 0, "the simulation and itself")
+            agree(a, cp, 0, "the simulation and its copy")
+            try:
+                r = _p.loads(_p.dumps(a))
+                agree(a, r, 0, "the simulation and its unpickled snapshot")
+            except Exception as e:
+                out.append("%s=%s: pickle round trip raises %s" % (m["path"], tag, str(e)[:80]))
+            if tag in twins and m["path"] not in wall:
+                ctypes.memmove(ctypes.addressof(cp) + m["off"], sv[twins[tag]], 8)
+                agree(a, cp, 1, "a copy holding %s instead" % twins[tag])
+        return out
+
+    for m in [m for m in info["members"] if m["kind"] == "f64" and m["path"] in per]:
+        ok, out = forked(task, m)
+        res["members"] += 1
+        res["cases"] += len(specials) * 4
+        c.count(("special-values", m["path"]))
+        if not ok:
+            c.violation("special-value-crash:" + m["path"], "copy / compare / pickle crashed with a special value in %s" % m["path"], {"member": m["path"]})
+            continue
+        for msg in out[:2]:
+            key = "python-eq-disagrees:special-values" if "Python" in msg else "special-value:" + m["path"]
+            c.violation(key, msg, {"member": m["path"], "all": out[:6]})
+    c.cov["special_value_sweep"] = res
+
+
 def extra_field_cases(c, S, info, R, rb):
     """a persisted field present in only one of the two simulations is a difference, whichever side has it"""
     for cfg in ({"integrator": "whfast", "o": {"safe_mode": 0}, "system": "planets", "save_after": 2},
@@ -446,6 +505,7 @@ def run(c):
     perturbation_sweep(c, S, info, R, rb)
     element_sweep(c, S, info, R, rb)
     nan_cases(c, S, info, R, rb)
+    special_value_sweep(c, S, info, R, rb)
     extra_field_cases(c, S, info, R, rb)
     c.cov["histogram"] = S.hist
     c.sample({"cfg": cfgs[5], "path": "copy"})
